@@ -41,9 +41,9 @@ def generate(ctx):
         cases.append(dict(kind=kind, k=k, sig=proto.arr2hex(s['sig']), fs=s['fs'], f_range=list(s['f_range']),
                           n_cycles=(None if rng.random() < 0.5 else int(rng.choice([2, 3, 4]))),
                           boundary=(None if rng.random() < 0.5 else int(rng.choice([0, 5, 30]))),
-                          center=str(rng.choice(['peak', 'trough'])), method=method, th=th, family=s['family']))
+                          center=str(rng.choice(['peak', 'trough'])), method=method, th=th, family=s['family'], pres=implutil.pick_presentation(rng, 0.3), reuse=bool(rng.random() < 0.25)))
         if kind == 'amp' and rng.random() < 0.25:      # integer-typed recordings (ADC counts): factor 2^k, k in 1..4, stays in range
-            cases[-1].update(dtype=str(rng.choice(['int16', 'int32', 'int64'])), k=int(rng.integers(1, 5)))
+            cases[-1].update(dtype=str(rng.choice(['int16', 'int32', 'int64', '>i2', '>i4', '<u2', '>u2'])), k=int(rng.integers(1, 5)))     # (byte-swapped recordings included)
     return cases
 
 _objs = {}
@@ -52,9 +52,9 @@ def _run(c, sig, fs, fr):
     if _objs.get('owner') is not c:      # identity of the case dict (id() values are reused after garbage collection)
         _objs['owner'] = c       # both runs of one case use the SAME option objects
         fk = None if c['n_cycles'] is None else {'n_cycles': c['n_cycles']}
-        _objs['v'] = (dict(c['th']) if c['th'] else {}, implutil.fe_kwargs(fk, c['boundary'], None))
-    th, fek = _objs['v']
-    return implutil.quiet(compute_features, sig, fs, fr, center_extrema=c['center'], burst_method=c['method'], threshold_kwargs=th, find_extrema_kwargs=fek)
+        _objs['v'] = (dict(c['th']) if c['th'] else {}, implutil.fe_kwargs(fk, c['boundary'], None), ({'amp_threshes': (0.5, 1.5)} if c['method'] == 'amp' else None))
+    th, fek, bk = _objs['v']
+    return implutil.quiet(compute_features, sig, fs, fr, center_extrema=c['center'], burst_method=c['method'], burst_kwargs=bk, threshold_kwargs=th, find_extrema_kwargs=fek)
 
 def evaluate(ctx, cases):
     out = []
@@ -64,10 +64,15 @@ def evaluate(ctx, cases):
         f = 2.0 ** c['k']
         if c.get('dtype'):
             m = float(np.max(np.abs(x))) or 1.0
-            x = np.round(x * (1000.0 / m)).astype(c['dtype']); f = int(f)
+            x = np.round(x * (1900.0 / m)) + (2000 if 'u' in c['dtype'] else 0)
+            x = x.astype(c['dtype']); f = int(f)
         res = []
-        for args in ((x, fs, fr), ((x * f, fs, fr) if c['kind'] == 'amp' else (x, fs * f, (fr[0] * f, fr[1] * f)))):
+        for j, args in enumerate(((x, fs, fr), ((x * f, fs, fr) if c['kind'] == 'amp' else (x, fs * f, (fr[0] * f, fr[1] * f))))):
             try:
+                if j == 1 and c.get('pres') not in (None, 'array'):       # the rescaled run receives its samples in another container / layout
+                    args = (implutil.present(np.asarray(args[0]), c['pres']),) + tuple(args[1:])
+                if j == 0 and c.get('reuse') and isinstance(args[0], np.ndarray):      # the first run analyses a buffer refilled in place
+                    res.append(implutil.reuse_buffer(lambda a: _run(c, a, args[1], args[2]), args[0])); continue
                 res.append(_run(c, *args))
             except Exception as e:
                 tb = e.__traceback__; files = []
